@@ -351,6 +351,33 @@ def check_guard_handover(ctx, F, rule="E-FREELIST.handover"):
             reach = B.reachable_from(0, avoid=avoid)
             if any(e in reach for e in exits) or not gets.get(f):
                 missing.append(f)
+        # each test must send its `something is parked` outcome to return_preallocated
+        wrong = []
+        for i in sorted(B.reach):
+            b = m["blocks"][i]
+            if b["c"]:
+                continue
+            for s in b["s"]:
+                rv = s.get("rv") or {}
+                if rv.get("k") == "bin" and rv.get("o") in ("Eq", "Ne") and cfg.const_int(rv.get("b")) == 0 and isinstance(s.get("lhs"), int):
+                    org = origins(B, m, [rv.get("a")])
+                    fields = {cell_field(B, m, o[1]) for o in org if o[0] == "call" and (cfg.callee_name(o[1]) or "").endswith("Cell::<T>::get")}
+                    fields.discard(None)
+                    if not fields:
+                        continue
+                    t = b["t"]
+                    if t["k"] != "switch" or cfg.op_place(t.get("d")) != s["lhs"]:
+                        continue
+                    zero = [blk for v, blk in t["t"] if str(v) == "0"]
+                    nonzero_edge = [t.get("o")] if rv["o"] == "Ne" else zero     # the cell holds something
+                    for x in nonzero_edge:
+                        if x is None:
+                            continue
+                        reach = B.reachable_from(x, avoid=set(rp) | {i})
+                        if any(e in reach for e in exits):
+                            wrong.append(sorted(fields)[0])
+        if wrong:
+            missing = missing + ["%s (non-zero outcome does not lead to return_preallocated)" % w for w in sorted(set(wrong))]
         ctx.ob(rule, rule + ":LocalStoreStateGuard::drop", not missing,
                "%s (%s): %s" % (F.nice(fid), F.where(fid),
                                 "return_preallocated is skipped only after next_free, initialized and node_count_delta were all "
